@@ -45,3 +45,26 @@ def words_text(max_words=8, newlines=True, wide=True, zero=True):
         seps += ["\n", "\n\n", " \n"]
     sep = st.sampled_from(seps)
     return st.lists(st.tuples(word, sep), min_size=0, max_size=max_words).map(lambda ws: "".join(w + s for w, s in ws).rstrip(" ") if ws else "")
+
+
+_EDGE = None
+
+
+def wide_edge():
+    """Double-width characters that sit at the *edges* of rows of the width table (first/last code point of a row, single-code-point rows):
+    the places an off-by-one in a table search shows up. Computed from the table itself."""
+    global _EDGE
+    if _EDGE is None:
+        from rich._cell_widths import CELL_WIDTHS
+
+        out = []
+        for start, end, w in CELL_WIDTHS:
+            if w == 2 and start > 0x1100 and not (0xD800 <= start <= 0xDFFF):
+                if start == end:
+                    out.append(chr(start))
+                elif len(out) % 3 == 0:
+                    out.append(chr(end))
+                elif len(out) % 3 == 1:
+                    out.append(chr(start))
+        _EDGE = out[:60] + [chr(0xD7A3), chr(0xFF60), chr(0x30FF), chr(0x1F64F), chr(0x2705), chr(0x2B50)]
+    return _EDGE
